@@ -7,7 +7,7 @@ import sys
 from .. import common, gen, parsing
 
 LEVEL = "proof"
-EXTRA_LEAN_MODULES = ["Luqum.Props.GenGlue", "Luqum.Props.GenHandle"]   # the parse wrappers are pass-through (translated)
+EXTRA_LEAN_MODULES = ["Luqum.Props.GenGlue", "Luqum.Props.GenHandle", "Luqum.Props.GenActions"]   # the parse wrappers are pass-through (translated)
 RULE = ("histories of 2-8 parse calls on one process mixing valid queries, syntax errors, illegal characters and "
         "malformed numerals (about half malformed), through both entry points (module parser, thread wrapper); "
         "each outcome is compared with the outcome of the same string in a forked child whose lexer never "
